@@ -37,8 +37,7 @@ Print Assumptions C32_unselected_untouched.
 (* 3. what the selected pages become.  Rotation: the effective (inherited) rotation composed with delta,
       which is the representative in [0,360) of current+delta modulo 360; nothing else changes. *)
 Theorem C32_rotate_page : forall delta d i,
-  wview (pf_rotate delta d (snd (eff (d, i))), i) =
-  set_rot (wview (d, i)) (compose_rot (v_rot (wview (d, i))) delta).
+  wview (pf_rotate delta d (snd (eff (d, i))), i) = vf_rotate delta (wview (d, i)).
 Proof. exact rotate_view. Qed.
 Print Assumptions C32_rotate_page.
 
@@ -47,14 +46,22 @@ Theorem C32_rotate_arith : forall cur delta,
 Proof. exact compose_rot_spec. Qed.
 Print Assumptions C32_rotate_arith.
 
-(* add boxes / crop (explicit rectangles): exactly the requested boxes are replaced *)
+(* add boxes / crop (explicit rectangles or absolute margins): exactly the requested boxes are replaced;
+   Media and Crop definitions are relative to the media box in effect, Trim / Bleed / Art definitions
+   are relative to the page's EFFECTIVE CROP BOX if it has one -- whether defined in this call, by an
+   earlier operation on the page, or inherited -- and to the media box otherwise (vf_addbox). *)
 Theorem C32_addbox_page : forall b d i,
-  wview (pf_addbox b d (snd (eff (d, i))), i) =
-  let v := wview (d, i) in
-  mkV (v_id v) (v_rot v) (orelse (b_media b) (v_media v)) (orelse (b_crop b) (v_crop v))
-      (orelse (b_trim b) (v_trim v)) (orelse (b_bleed b) (v_bleed v)) (orelse (b_art b) (v_art v)).
+  wview (pf_addbox b d (snd (eff (d, i))), i) = vf_addbox b (wview (d, i)).
 Proof. exact addbox_view. Qed.
 Print Assumptions C32_addbox_page.
+
+(* the parent-box rule spelled out for a trim box given by margins *)
+Theorem C32_addbox_parent_rule : forall ml mr mt mb v,
+  v_trim (vf_addbox (mkBoxReq None None (Some (BMarg ml mr mt mb)) None None) v) =
+  Some (apply_def (BMarg ml mr mt mb)
+          (match v_crop v with Some c => c | None => match v_media v with Some m => m | None => a4 end end)).
+Proof. intros. unfold vf_addbox. simpl. destruct (v_crop v); reflexivity. Qed.
+Print Assumptions C32_addbox_parent_rule.
 
 (* remove boxes: trim/bleed/art are removed; the crop box is removed or becomes the media box PROVIDED no
    CropBox is inherited from a /Pages node ... *)
@@ -123,6 +130,23 @@ Theorem C32_history : forall ops t t', wf_count t = true -> is_node t = true -> 
 Proof. exact run_ids. Qed.
 Print Assumptions C32_history.
 
+(* 7. sequences of per-page operations (rotate, add boxes, remove boxes, crop, any page function): the
+      tree-level run equals the list-level specification folded over the sequence ... *)
+Theorem C32_update_sequences : forall us t,
+  wpages (run_upd us t) = spec_upd us (wpages t) /\
+  count_of (run_upd us t) = count_of t /\
+  (wf_count t = true -> wf_count (run_upd us t) = true).
+Proof. exact run_upd_spec. Qed.
+Print Assumptions C32_update_sequences.
+
+(* ... and for histories of rotate / add boxes / crop steps the observable page list (marker, rotation,
+   every box of every page) is the view-level specification folded over the history: in particular a
+   crop box set by an EARLIER step is the parent of a trim/bleed/art box defined by a LATER step. *)
+Theorem C32_box_history : forall ops t l', vspec_run ops (pages_of t) = Some l' ->
+  exists t', run ops t = Ok t' /\ pages_of t' = l' /\ (wf_count t = true -> wf_count t' = true).
+Proof. exact vspec_run_ok. Qed.
+Print Assumptions C32_box_history.
+
 (* non-vacuity *)
 Definition ex_doc : tree :=
   Node (mkAttrs (Some 90) (Some (0,0,300,400)) None false) 3
@@ -136,9 +160,13 @@ Example C32_nonvacuous :
   (exists t', run [ORotate [1; 3] 270; OInsert [2] true None; OCollect [4; 1; 1]; ORemove [2]] ex_doc = Ok t' /\
      ids_of t' = [3; 1] /\ map v_rot (pages_of t') = [0; 0]) /\
   map v_rot (pages_of (upd_op [1; 3] (pf_rotate 270) ex_doc)) = [0; 180; 0] /\
-  compose_rot (-90) 90 = 0 /\ compose_rot 270 180 = 90 /\ compose_rot 0 (-90) = 270.
+  compose_rot (-90) 90 = 0 /\ compose_rot 270 180 = 90 /\ compose_rot 0 (-90) = 270 /\
+  (* crop page 2, then in a later call trim:10 -> the trim box is relative to the crop box *)
+  (exists t', run [OCrop [2] (BRect (70, 60, 550, 760));
+                   OAddBox [1; 2] (mkBoxReq None None (Some (BMarg 10 10 10 10)) None None)] ex_doc = Ok t' /\
+     map v_trim (pages_of t') = [Some (10, 10, 290, 390); Some (80, 70, 540, 750); Some (2, 2, 8, 8)]).
 Proof.
   split; [reflexivity|]. split; [reflexivity|]. split.
   { eexists. split; [vm_compute; reflexivity|]. split; reflexivity. }
-  repeat split; reflexivity.
+  repeat split; try reflexivity. eexists. split; vm_compute; reflexivity.
 Qed.
